@@ -109,6 +109,13 @@ CHECKS.update({
   text="TLC exhausts the bounded runner design (4 languages x generate-support x omit x namespace-types x templates x support-templates x lookup x extension x stem = 2048 combinations, all interleavings of list-outputs / list-inputs / dry-run / run) against the three clauses; every option combination (quick: a spec-defined subset of 512, thorough: all 2048) plus 40-400 random namespace sets with random options is executed through `python -m nunavut` in scratch trees with whole-tree snapshots (type, size, mtime_ns, mode, sha256) before/after, and the recorded histories are accepted or rejected by the TLA+ property layer alone. inputs_cover is metamorphic testing: one edit per candidate input, influence counted only when baseline and perturbed runs are each stable.",
   note=TB + "the snapshot sees all effects inside the scratch tree; templates included without the .j2 suffix (html assets) are recorded as ambiguous."),
 })
+
+CHECKS.update({
+ "C17": dict(cat="model_checking", ref="DESIGN.md §6 C17",
+  technique="TLA+ design model of the option guard (one constant per option in the support header, one assertion per option in every type header; CRC-32 written out in TLA+ and anchored to known values) checked by TLC; TLC-enumerated option pairs replayed through the real generator and compiler; every build validated as a trace by TLC",
+  text="P: Compile(a, b) succeeds iff Expand(a) = Expand(b) (std shorthands expanded) and a failing build names the language-option mismatch in every included type header. TLC checks Refines / Iff / NamesExactly / Injective (no CRC-32 collision among the 35 documented string values) for all 48 C option vectors and the 14 documented C++ families with single and double changes (1-bit-hash negative control refuted); ~900-1250 enumerated pairs plus simulated multi-option pairs and 100-1000 random pairs (undocumented, unicode, near-identical strings; one side generated by the CLI) are generated for 8 DSDL types and compiled together with gcc/g++ (clang in thorough), every compile record judged by the trace spec.",
+  note=TB + "gcc 12 / clang 14 evaluating static assertions under -fsyntax-only; stand-in CETL headers; 'documented values' = properties.yaml plus the CLI choices."),
+})
 NOT_YET = {}
 props = [json.loads(l) for l in open(V / "properties.jsonl")]
 checks, na = [], []
